@@ -15,7 +15,7 @@ for cf in sorted(glob.glob('/tmp/mut/*/_out/m*.confirm.json')):
     shutil.copy(os.path.join(out, k + '_demo.rs'), os.path.join(d, 'demo.rs'))
     try: m = json.load(open(os.path.join(out, k + '.json')))
     except Exception: m = {}
-    meta = {'property': pid.split('b')[0], 'breaks': m.get('what'), 'needs': m.get('needs'), 'files': m.get('files'), 'features': m.get('features', ''),
+    meta = {'property': __import__('re').match(r'C\d+', pid).group(0), 'breaks': m.get('what'), 'needs': m.get('needs'), 'files': m.get('files'), 'features': m.get('features', ''),
             'author': 'independent sub-agent given only the property text and a scratch worktree',
             'confirmed': {'how': 'tools/confirm_mutant.sh in a scratch worktree: demo passes on the original tree, fails with the patch; '
                                  'cargo test --workspace --offline --no-fail-fast passes with the patch', **c},
